@@ -83,6 +83,13 @@ def burst_of(hx, kind, i):
     if kind == "voice-header":
         return mk(FullLinkControl(protect_flag=0, flco=FLCOs.GroupVoiceChannelUser, fid=FeatureSetIDs.StandardizedFID, crc=bitarray("0" * 24), service_options=SO,
                                   group_address=hx.int(24, "g%d" % i), source_address=7), DataTypes.VoiceLCHeader)
+    if kind == "voice-header-any":
+        # a voice LC header carrying ANY Full LC the library can parse (group / unit-to-unit call, GPS info, talker alias header / blocks ...):
+        # the Full LC decoder runs on 96 symbolic bits, every opcode appears as a path
+        st, lc = hx.guard(FullLinkControl.from_bits, hx.ba(96, "lc%d" % i))
+        if st != "ok":
+            hx.assume(False)                      # not a parseable Full LC: not a burst of this class
+        return mk(lc, DataTypes.VoiceLCHeader)
     if kind == "terminator":
         return mk(FullLinkControl(protect_flag=0, flco=FLCOs.GroupVoiceChannelUser, fid=FeatureSetIDs.StandardizedFID, crc=bitarray("0" * 24), service_options=SO,
                                   group_address=9, source_address=7), DataTypes.TerminatorWithLC)
@@ -187,6 +194,43 @@ def h_history(hx, first, depth, raising, two_slots, full=True, first_sap=None):
     hx.cover("history")
 
 
+def h_step(hx, prefix, kind):
+    """one step from a tracker state that a LONG history reaches: the state after `prefix` with the 8-bit receive sequence counter replaced by
+    an arbitrary value (reached by that many further bursts) and, inside a voice transmission, the last voice-burst label replaced by any of
+    A..F / unknown (reached by a voice-sync burst followed by 0..5 embedded-signalling bursts)."""
+    rec = Rec()
+    term = Terminal(5, observers=[rec])
+    for i, k in enumerate(prefix):
+        term.process_incoming_burst(burst_of(hx, k, i + 1), 1)
+    slot = term.timeslots[1]
+    tr = slot.transmission
+    seq = hx.int(8, "seq")
+    slot.rx_sequence = seq
+    last = None
+    if tr.type is TransmissionTypes.VoiceTransmission:
+        last = hx.pick("last", list(VoiceBursts))
+        tr.last_voice_burst = last
+    what = "state after %r with sequence counter s%s, then %s" % (prefix, (" and last voice burst %s" % last.name) if last is not None else "", kind)
+    n_ev = len(rec.ev)
+    st, out = hx.guard(term.process_incoming_burst, burst_of(hx, kind, len(prefix) + 1), 1)
+    hx.prove(st == "ok", "%s: processing never fails (%s: %s)" % (what, type(out).__name__ if st == "exc" else "", out if st == "exc" else ""))
+    monitor(hx, rec.ev, what)
+    if st != "ok":
+        return
+    hx.prove(out.sequence_no == ((seq + 1) & 255), "%s: the receive sequence number is (s + 1) mod 256" % what)
+    ended = any(e[0] in ("data_ended", "voice_ended") for e in rec.ev[n_ev:])
+    nxt = term.process_incoming_burst(burst_of(hx, "csbk", 9), 1)
+    hx.prove(nxt.sequence_no == (1 if ended else ((seq + 2) & 255)), "%s: the following burst gets %s" % (what, "1 (restart after an end)" if ended else "(s + 2) mod 256"))
+    if last is not None and tr.type is TransmissionTypes.VoiceTransmission and not ended:
+        cyc = [VoiceBursts.VoiceBurstA, VoiceBursts.VoiceBurstB, VoiceBursts.VoiceBurstC, VoiceBursts.VoiceBurstD, VoiceBursts.VoiceBurstE, VoiceBursts.VoiceBurstF]
+        if kind == "voice-sync":
+            hx.prove(out.voice_burst is VoiceBursts.VoiceBurstA, "%s: a voice-sync burst is labelled A" % what)
+        elif kind == "voice-emb" and last in cyc:
+            want = cyc[(cyc.index(last) + 1) % 6]
+            hx.prove(out.voice_burst is want, "%s: the burst after %s is labelled %s" % (what, last.name, want.name))
+    hx.cover("step")
+
+
 def cases(tier, seed):
     out = []
     plans = [(2, ALPHABET, True), (3, LATE, False)]
@@ -207,4 +251,8 @@ def cases(tier, seed):
                             bounds="depth 2 over the core alphabet with a first observer that raises on every notification"))
             out.append(Case("twoslots-d2-%s%s" % (first, sfx), "h_history", dict(first=first, depth=2, raising=False, two_slots=True, full=False, first_sap=fs), covers=["history"], budget_s=600, opts=OPTS,
                             bounds="depth 2 over the core alphabet, each burst on timeslot 1 or 2 (declared split)"))
+    for prefix in ([], ["voice-header"], ["voice-header", "voice-sync"], ["data-header-u"], ["preamble"], ["voice-header-any"]):
+        for kind in (ALPHABET + ["voice-header-any"] if prefix != ["voice-header-any"] else ["terminator", "voice-header", "data-header-u", "voice-emb"]):
+            out.append(Case("step-%s-then-%s" % ("+".join(prefix) or "idle", kind), "h_step", dict(prefix=prefix, kind=kind), covers=["step"], budget_s=600, opts=OPTS,
+                            bounds="one burst from the state after %r with an arbitrary 8-bit sequence counter and (voice) any last voice-burst label" % (prefix,)))
     return out
